@@ -23,7 +23,16 @@ const far = 1000 // expiry ≈ 41 days ahead: never reached here (clock movement
 var allKeys = []string{"a", "b", "ab", "k/1", "k/2", "zz"}
 
 // the operation instances enumerated exhaustively
-func alphabet() []Op {
+func alphabet(backend string) []Op {
+	a := baseAlphabet()
+	if backend == "inmem" {
+		// a record written with an expiry that has already passed (miniredis would keep such a key for ever)
+		a = append(a, Op{K: "Put", Key: "a", Val: 2, Exp: -1}, Op{K: "PutMany", Keys: []string{"ab", "a"}, Val: 1, Exps: []int{0, -1}})
+	}
+	return a
+}
+
+func baseAlphabet() []Op {
 	return []Op{
 		{K: "Create", Key: "a", Val: 2},
 		{K: "Create", Key: "a", Val: 1, Ver: "mine"},
@@ -46,6 +55,8 @@ func alphabet() []Op {
 		{K: "PutMany", Keys: []string{"k/1", "b"}, Val: 3, Exp: far},
 		{K: "PutMany", Keys: []string{"a"}, Val: 0, Ver: "mine"},
 		{K: "PutMany", Keys: []string{}},
+		{K: "PutMany", Keys: []string{"a", "a"}, Val: 1, Exps: []int{0, far}},
+		{K: "PutMany", Keys: []string{"a", "b", "a"}, Val: 2, Exps: []int{far, 0, 0}},
 		{K: "Cas", Key: "a", Val: 3, Ver: "cur"},
 		{K: "Cas", Key: "a", Val: 1, Ver: "stale"},
 		{K: "Cas", Key: "a", Val: 2, Ver: "bogus"},
@@ -120,7 +131,7 @@ func (w *worker) backend(name string) *kvmodel.Backend {
 func TestCheck(t *testing.T) {
 	run := report.New("C03", "exploration")
 	defer run.Finish(t)
-	run.Rule("every sequence over 39 operation instances (Create/Get/GetMany/Put/PutMany/CasByVersion/Delete/ListKeys/WaitForVersionChange; nil/empty/non-empty values; with/without far expiry; repeated, missing and no keys in GetMany/PutMany; current/stale/made-up/caller-supplied versions) to the depth bound, plus seeded random sequences of length 30-200 over 6 keys; each backend is compared call by call with the contract model (error class, returned record, version relations, ListKeys as a set). distinct = distinct logical store states (key, presence, value, expiry, kind of last write) reached")
+	run.Rule("every sequence over 41 (Redis) / 43 (inmem) operation instances (Create/Get/GetMany/Put/PutMany/CasByVersion/Delete/ListKeys/WaitForVersionChange; nil/empty/non-empty values; with/without far expiry; repeated, missing and no keys in GetMany/PutMany; current/stale/made-up/caller-supplied versions) to the depth bound, plus seeded random sequences of length 30-200 over 6 keys; each backend is compared call by call with the contract model (error class, returned record, version relations, ListKeys as a set). distinct = distinct logical store states (key, presence, value, expiry, kind of last write) reached")
 	run.Assume("Redis backend runs against the in-process miniredis server; keys with a leading '/' and invalid glob patterns are not generated (contract silent)")
 	run.Assume("values are compared with bytes.Equal (nil == empty), expiries as instants, ListKeys as a set")
 
@@ -130,7 +141,6 @@ func TestCheck(t *testing.T) {
 	}
 
 	depth := run.Pick(3, 4)
-	alpha := alphabet()
 	type unit struct {
 		backend string
 		prefix  []Op
@@ -178,6 +188,7 @@ func TestCheck(t *testing.T) {
 
 	// exhaustive part: one work unit per (backend, first op, second op)
 	for _, backend := range []string{"inmem", "redis"} {
+		alpha := alphabet(backend)
 		for i1 := range alpha {
 			for i2 := range alpha {
 				backend, i1, i2 := backend, i1, i2
@@ -226,6 +237,7 @@ func TestCheck(t *testing.T) {
 	}
 	run.Note("depth", depth)
 	run.Note("operations_applied", opTotals)
+	alpha := alphabet("inmem")
 	run.Sample(kase{Backend: "redis", Observe: true, Ops: []Op{alpha[0], alpha[16], alpha[21]}})
 	run.Sample(kase{Backend: "inmem", Observe: false, Ops: []Op{alpha[2], alpha[24], alpha[33]}})
 	i := 0
@@ -265,7 +277,13 @@ func randomOp(rng *rand.Rand) Op {
 	case x < 44:
 		return Op{K: "Put", Key: key(), Val: rng.Intn(4), Exp: exp(), Ver: cver()}
 	case x < 56:
-		return Op{K: "PutMany", Keys: keys(), Val: rng.Intn(4), Exp: exp(), Ver: cver()}
+		o := Op{K: "PutMany", Keys: keys(), Val: rng.Intn(4), Exp: exp(), Ver: cver()}
+		if rng.Intn(2) == 0 {
+			for range o.Keys {
+				o.Exps = append(o.Exps, exp())
+			}
+		}
+		return o
 	case x < 72:
 		return Op{K: "Cas", Key: key(), Val: rng.Intn(4), Exp: exp(), Ver: []string{"cur", "cur", "stale", "bogus", "mine"}[rng.Intn(5)]}
 	case x < 82:
